@@ -976,12 +976,14 @@ class Variable(CanBehaveLikeAVariable[T]):
         self._eval_parent_ = parent
         sources = sources or {}
         if self._id_ in sources:
+            # the truthiness of a bound value is a condition only where the variable is used as one
+            is_false = False
             if (
                 isinstance(self._parent_, LogicalBinaryOperator)
                 or self is self._conditions_root_
             ):
-                self._is_false_ = not bool(sources[self._id_])
-            yield OperationResult(sources, not bool(sources[self._id_]), self)
+                self._is_false_ = is_false = not bool(sources[self._id_])
+            yield OperationResult(sources, is_false, self)
         elif self._domain_:
             for v in self._domain_:
                 yield OperationResult(
